@@ -28,6 +28,8 @@ pub struct Diag {
 #[derive(Clone, Debug, PartialEq)]
 pub struct ListTree {
     pub tag: String,
+    /// what the printer sees of `diags`: `ErrorTrait::range()` and `ErrorTrait::message()`
+    pub trait_view: TraitView,
     pub diags: Vec<Diag>,
     pub children: Vec<ListTree>,
 }
@@ -38,6 +40,10 @@ pub struct SynDiag {
     pub start: usize,
     pub end: usize,
 }
+
+/// `ErrorTrait` view (what the printer uses) of the syntax diagnostics of one parsed source, as
+/// (start, end, message); compared with the inherent view by oracle S1.
+pub type TraitView = Vec<(usize, usize, String)>;
 
 /// One node of the tree of parsed sources (`syntax_result()` and its `included()`).
 #[derive(Clone, Debug, PartialEq)]
@@ -50,6 +56,7 @@ pub struct SynFile {
     /// length of the text spelled by the tree (when there is a tree)
     pub tree_text_len: Option<usize>,
     pub has_error_node: bool,
+    pub trait_view: TraitView,
     pub children: Vec<SynFile>,
 }
 
@@ -89,6 +96,13 @@ pub struct Run {
 pub fn list_tree(l: &SemanticErrorList) -> ListTree {
     ListTree {
         tag: l.source_file_path().to_string_lossy().into_owned(),
+        trait_view: l
+            .iter()
+            .map(|e| {
+                let r = oq3_source_file::ErrorTrait::range(e);
+                (r.start().into(), r.end().into(), oq3_source_file::ErrorTrait::message(e))
+            })
+            .collect(),
         diags: l
             .iter()
             .map(|e| {
@@ -112,6 +126,18 @@ pub fn list_tree(l: &SemanticErrorList) -> ListTree {
 }
 
 fn syn_tree<T: SourceTrait>(s: &T, include_error: Option<String>) -> SynFile {
+    let trait_view: TraitView = s
+        .syntax_ast()
+        .map(|a| {
+            a.errors()
+                .iter()
+                .map(|e| {
+                    let r = oq3_source_file::ErrorTrait::range(e);
+                    (r.start().into(), r.end().into(), oq3_source_file::ErrorTrait::message(e))
+                })
+                .collect()
+        })
+        .unwrap_or_default();
     let (has_ast, have_parse, errors, tree_text_len, has_error_node) = match s.syntax_ast() {
         Some(a) => {
             let errors = a
@@ -144,6 +170,7 @@ fn syn_tree<T: SourceTrait>(s: &T, include_error: Option<String>) -> SynFile {
         include_error,
         tree_text_len,
         has_error_node,
+        trait_view,
         children: s
             .included()
             .iter()
